@@ -67,6 +67,7 @@ PROPS = {
         tests=[
             dict(name="TestWaitShutdown", quick=4000, thorough=40000, shards_thorough=12),
             dict(name="TestCancelDuringDispatch", quick=1500, thorough=20000, shards_thorough=4),
+            dict(name="TestWaitRace", quick=60, thorough=600, shards_thorough=4, race=True, shrinktime="5s"),
         ],
     ),
     "C07": dict(
@@ -221,7 +222,7 @@ PROPS = {
         pkg="c03", level="exploration",
         technique="fuzzing of generated concurrent API programs (rapid) under the Go race detector with per-case attribution of reports, plus a hang watchdog",
         level_text="Random search over concurrent mixes of the whole public surface (bus, persistence, upcasts, bundled stores, materializer) with re-entrant calls from handlers, filters and hooks, run free on real goroutines under the race detector with barrier start, drawn GOMAXPROCS and yield noise; a race report, an API panic or a reproducible 60 s hang is a violation. The detector only sees interleavings that execute: absence of races is never shown.",
-        level_note="Excluded by construction: configuration setters, Wait/Shutdown from inside handlers, nested scripts in Sequential handlers (the documented self-delivery and its transitive forms). Races whose report has no jilio/ebu frame are recorded, not reported.",
+        level_note="Excluded by construction: configuration setters, Wait/Shutdown from inside handlers, publishes from inside Sequential handlers (the documented self-delivery and its transitive forms; their other nested calls - unsubscribe, subscribe, clear, queries - are generated). Races whose report has no jilio/ebu frame are recorded, not reported.",
         crash_is_violation=True,
         assumptions=COMMON_ASSUME + ["a race report appended to the detector's log file while a case runs belongs to that case (cases run one at a time)"],
         tests=[
